@@ -527,6 +527,11 @@ func (w *world) exec(rq Req, sn *Snap) result {
 			return errRes(err)
 		}
 		return errRes(datastore.DeleteRepo(uuid, rq.Pass))
+	case "restart":
+		// auxiliary: close and reopen the datastore (metadata is reloaded from the store); not a
+		// request: whatever it changes shows up against the model at the next request
+		datastore.CloseReopenTest()
+		return result{"aux", ""}
 	case "putkey":
 		// auxiliary: key-value content so that resolve meets real conflicts; not a repo-level request
 		dv.Post("/api/node/"+us+"/"+rq.Name+"/key/"+rq.Key, []byte("v"+us))
@@ -751,6 +756,7 @@ type gen struct {
 	passOf  map[string]string // root uuid -> passcode
 	newPass string            // passcode of the newrepo request under way
 	dead    []string          // well-formed uuids of nodes whose repo was deleted: free for reuse
+	issued  []string          // every uuid this sequence has assigned so far (root, newversion, branch, tag)
 	maxV    int
 	stats   map[string]int
 }
@@ -877,12 +883,69 @@ func (g *gen) badAssign(sn *Snap) SX {
 }
 
 // a fresh well-formed uuid, or one that a deleted repo has given back
+// a well-formed uuid a caller may assign: fresh, given back by a deleted repo, or -- to exercise
+// "every UUID names exactly one node" across the entry points (repo root, newversion, branch) --
+// one assigned earlier in this sequence, verbatim (a duplicate if it still names a node) or with the
+// case of its hex digits changed (another string: the server compares UUIDs byte for byte).
+// Hex digits come in lower, upper and mixed case.
 func (g *gen) freeUUID() string {
-	if len(g.dead) > 0 && g.rng.Chance(0.5) {
+	var u string
+	switch {
+	case len(g.issued) > 0 && g.rng.Chance(0.3):
+		u = g.issued[g.rng.Intn(len(g.issued))]
+		switch g.rng.Intn(3) {
+		case 0:
+			g.stats["assigned_uuid_repeated"]++
+		case 1:
+			u = strings.ToUpper(u)
+			g.stats["assigned_uuid_case_variant"]++
+		default:
+			u = strings.ToLower(u)
+			g.stats["assigned_uuid_case_variant"]++
+		}
+	case len(g.dead) > 0 && g.rng.Chance(0.5):
 		g.stats["reused_deleted_uuid"]++
-		return g.dead[g.rng.Intn(len(g.dead))]
+		u = g.dead[g.rng.Intn(len(g.dead))]
+	default:
+		u = randHex(g.rng, 32)
+		switch g.rng.Intn(3) {
+		case 0:
+			u = strings.ToUpper(u)
+		case 1:
+			b := []byte(u)
+			for i := range b {
+				if g.rng.Bool() {
+					b[i] = strings.ToUpper(string(b[i]))[0]
+				}
+			}
+			u = string(b)
+		}
 	}
-	return randHex(g.rng, 32)
+	g.issued = append(g.issued, u)
+	return u
+}
+
+// branch names: mostly plain and fresh, otherwise from an adversarial pool -- padded with white
+// space, "master" in other spellings, look-alikes, empty after trimming, long, with the characters of
+// the reference syntax.  The invariants must hold whatever the name; only exactly "" and "master"
+// are refused.
+func (g *gen) branchName(sn *Snap) SX {
+	if g.rng.Chance(0.68) {
+		return L(g.freshName("b"))
+	}
+	g.stats["adversarial_branch_name"]++
+	existing := ""
+	if m, ok := pickNode(g.rng, filterNodes(sn.Nodes, func(m Node) bool { return m.Branch != "" })); ok {
+		existing = m.Branch
+	}
+	pool := []string{" master", "master ", "\tmaster", "master\n", " master ", "Master", "MASTER", "m\u0430ster", "master\u200b",
+		" ", "\t", "  \n", strings.Repeat("L", 300) + strconv.Itoa(g.rng.Intn(3)),
+		"a:b" + strconv.Itoa(g.rng.Intn(3)), "x~1", "a/b", ":master", "master~0",
+		" " + g.freshName("b"), g.freshName("b") + " ", "\u00e9" + g.freshName("b")}
+	if existing != "" {
+		pool = append(pool, " "+existing, existing+" ", strings.ToUpper(existing), existing+"\t", existing)
+	}
+	return L(pool[g.rng.Intn(len(pool))])
 }
 
 func (g *gen) goodAssign() SX {
@@ -955,8 +1018,8 @@ func (g *gen) next(w *world, sn *Snap, i int) (Req, bool) {
 	sort.Strings(mergeRepos)
 	sort.Strings(dataRepos)
 
-	kinds := []string{"commit", "newversion", "branch", "tag", "merge", "resolve", "post", "newdata", "dataop", "newrepo", "delrepo"}
-	weights := []int{20, 16, 13, 8, 14, 5, 5, 8, 4, 5, 3}
+	kinds := []string{"commit", "newversion", "branch", "tag", "merge", "resolve", "post", "newdata", "dataop", "newrepo", "delrepo", "resolvescn", "restart"}
+	weights := []int{20, 16, 13, 8, 14, 5, 5, 8, 4, 5, 3, 4, 2}
 	tot := 0
 	for _, x := range weights {
 		tot += x
@@ -988,11 +1051,61 @@ func (g *gen) next(w *world, sn *Snap, i int) (Req, bool) {
 				kind = "newdata"
 			case kind == "delrepo" && len(sn.Repos) < 2:
 				kind = "newrepo"
+			case kind == "resolvescn" && len(locked) == 0:
+				kind = "commit"
 			}
 		}
 	}
 
 	switch kind {
+	case "restart":
+		g.stats["restarts"]++
+		return Req{Kind: "restart"}, true
+
+	case "resolvescn":
+		// resolve with real conflicts: two fresh branches off a committed node write the same key of
+		// a data instance (sometimes different keys: no conflict); each is committed or left open;
+		// then they are resolved in either order -- every commit state and order of the parents
+		p, ok := pickNode(rng, locked)
+		if !ok {
+			return g.newRepo(sn, false), true
+		}
+		v1, v2 := g.maxV+1, g.maxV+2
+		insts := instancesOf(sn, p.Repo)
+		var d string
+		var setup []Req
+		if len(insts) > 0 {
+			d = insts[rng.Intn(len(insts))]
+		} else {
+			d = g.freshName("d")
+			setup = append(setup, Req{Kind: "newdata", U: T(v1), Type: "keyvalue", Name: d})
+		}
+		key1, key2 := "kc", "kc"
+		if rng.Chance(0.25) {
+			key2 = "kd"
+		}
+		g.pending = append(g.pending, setup...)
+		g.pending = append(g.pending, Req{Kind: "putkey", U: T(v1), Name: d, Key: key1},
+			Req{Kind: "branch", U: T(p.VersionID), Branch: L(g.freshName("b")), Assign: L("")},
+			Req{Kind: "putkey", U: T(v2), Name: d, Key: key2})
+		if rng.Chance(0.7) {
+			g.pending = append(g.pending, Req{Kind: "commit", U: T(v1)})
+		}
+		if rng.Chance(0.7) {
+			g.pending = append(g.pending, Req{Kind: "commit", U: T(v2)})
+		}
+		ps := []SX{T(v1), T(v2)}
+		if rng.Bool() {
+			ps = []SX{T(v2), T(v1)}
+		}
+		data := []string{d}
+		if rng.Chance(0.15) {
+			data = append(data, "nosuchdata")
+		}
+		g.pending = append(g.pending, Req{Kind: "resolve", U: T(p.VersionID), MType: "conflict-free", Data: data, Parents: ps})
+		g.stats["resolve_scenarios"]++
+		return Req{Kind: "branch", U: T(p.VersionID), Branch: L(g.freshName("b")), Assign: L("")}, true
+
 	case "newrepo":
 		return g.newRepo(sn, hostile), true
 
@@ -1042,7 +1155,7 @@ func (g *gen) next(w *world, sn *Snap, i int) (Req, bool) {
 		if !ok {
 			n = anyNode
 		}
-		rq := Req{Kind: "branch", U: g.ref(sn, n), Branch: L(g.freshName("b")), Assign: g.goodAssign()}
+		rq := Req{Kind: "branch", U: g.ref(sn, n), Branch: g.branchName(sn), Assign: g.goodAssign()}
 		if hostile {
 			switch rng.Intn(7) {
 			case 0:
@@ -1156,9 +1269,18 @@ func (g *gen) next(w *world, sn *Snap, i int) (Req, bool) {
 				if len(rq.Parents) > 0 {
 					rq.Parents = append(rq.Parents, rq.Parents[rng.Intn(len(rq.Parents))])
 				}
-			case 4: // foreign repo
-				if n, ok := pickNode(rng, filterNodes(sn.Nodes, func(n Node) bool { return n.Repo != repo })); ok {
-					rq.Parents = append(rq.Parents, T(n.VersionID))
+			case 4: // foreign repo: a committed node of another repo if there is one, last or first
+				foreign := filterNodes(sn.Nodes, func(n Node) bool { return n.Repo != repo && n.Locked })
+				if len(foreign) == 0 {
+					foreign = filterNodes(sn.Nodes, func(n Node) bool { return n.Repo != repo })
+				}
+				if n, ok := pickNode(rng, foreign); ok {
+					if rng.Bool() {
+						rq.Parents = append(rq.Parents, T(n.VersionID))
+					} else {
+						rq.Parents = append([]SX{T(n.VersionID)}, rq.Parents...)
+					}
+					g.stats["foreign_parent"]++
 				}
 			case 5: // too few
 				if len(rq.Parents) > 1 {
@@ -1392,6 +1514,54 @@ func corpus() [][]Req {
 			{Kind: "note", U: T(2)}, {Kind: "commit", U: P(3, 9)},
 			{Kind: "newrepo", Root: sp(T(2))}, {Kind: "newrepo", Root: sp(T(1))},
 			{Kind: "commit", U: T(2)}, {Kind: "newversion", U: T(2), Assign: T(3)}},
+		// restarts between id-allocating requests: nothing is lost, no id is handed out twice
+		{{Kind: "newrepo"}, {Kind: "restart"}, {Kind: "newrepo"}, {Kind: "restart"}, {Kind: "newrepo"},
+			{Kind: "commit", U: T(1)}, {Kind: "newversion", U: T(1), Assign: L("")}, {Kind: "restart"},
+			{Kind: "branch", U: T(1), Branch: L("r"), Assign: L("")}, {Kind: "newrepo"}, {Kind: "restart"}, {Kind: "commit", U: T(2)},
+			{Kind: "newdata", U: T(3), Type: "keyvalue", Name: "d1"}, {Kind: "restart"}, {Kind: "newdata", U: T(3), Type: "keyvalue", Name: "d2"}},
+		// parents from two repos: refused whichever comes first
+		{{Kind: "newrepo"}, {Kind: "commit", U: T(1)}, {Kind: "newversion", U: T(1), Assign: L("")}, {Kind: "commit", U: T(2)},
+			{Kind: "newrepo"}, {Kind: "commit", U: T(3)},
+			{Kind: "merge", U: T(2), MType: "conflict-free", Parents: []SX{T(2), T(3)}},
+			{Kind: "merge", U: T(3), MType: "conflict-free", Parents: []SX{T(3), T(2)}},
+			{Kind: "merge", U: T(1), MType: "conflict-free", Parents: []SX{T(1), T(2), T(3)}},
+			{Kind: "merge", U: T(1), MType: "conflict-free", Parents: []SX{T(1), T(2)}}},
+		// resolve with a real conflict (key k of d1 written on both branches), the parents in every
+		// commit state and order: open first parent + committed second, the reverse, both committed
+		with(Req{Kind: "newdata", U: T(3), Type: "keyvalue", Name: "d1"},
+			Req{Kind: "branch", U: T(1), Branch: L("c"), Assign: L("")},
+			Req{Kind: "putkey", U: T(3), Name: "d1", Key: "k"}, Req{Kind: "putkey", U: T(4), Name: "d1", Key: "k"},
+			Req{Kind: "commit", U: T(4)},
+			Req{Kind: "resolve", U: T(1), Data: []string{"d1"}, Parents: []SX{T(3), T(4)}},
+			Req{Kind: "resolve", U: T(1), Data: []string{"d1"}, Parents: []SX{T(4), T(3)}},
+			Req{Kind: "commit", U: T(3)},
+			Req{Kind: "resolve", U: T(1), Data: []string{"d1"}, Parents: []SX{T(3), T(4)}},
+			Req{Kind: "resolve", U: T(1), Data: []string{"d1"}, Parents: []SX{T(4), T(3)}}),
+		// branch names that are not "master" but close to it, padded, empty after trimming, long, with
+		// the characters of the reference syntax: all are ordinary names
+		{{Kind: "newrepo"}, {Kind: "commit", U: T(1)},
+			{Kind: "branch", U: T(1), Branch: L(" master"), Assign: L("")}, {Kind: "branch", U: T(1), Branch: L("master "), Assign: L("")},
+			{Kind: "branch", U: T(1), Branch: L("Master"), Assign: L("")}, {Kind: "branch", U: T(1), Branch: L("\tmaster\n"), Assign: L("")},
+			{Kind: "branch", U: T(1), Branch: L(" "), Assign: L("")}, {Kind: "branch", U: T(1), Branch: L("m\u0430ster"), Assign: L("")},
+			{Kind: "branch", U: T(1), Branch: L("a:b"), Assign: L("")}, {Kind: "branch", U: T(1), Branch: L("x~1"), Assign: L("")},
+			{Kind: "branch", U: T(1), Branch: L("b1"), Assign: L("")}, {Kind: "branch", U: T(1), Branch: L(" b1"), Assign: L("")},
+			{Kind: "branch", U: T(1), Branch: L("b1 "), Assign: L("")}, {Kind: "branch", U: T(1), Branch: L("B1"), Assign: L("")},
+			{Kind: "newversion", U: T(1), Assign: L("")}, {Kind: "branch", U: T(1), Branch: L(strings.Repeat("L", 300)), Assign: L("")}},
+		// one assigned uuid with upper-case hex digits offered at every entry point: the second and
+		// later uses of the same string are duplicates; its lower-case spelling is another uuid
+		{{Kind: "newrepo", Root: sp(L("ABCDEF0123456789ABCDEF0123456789"))}, {Kind: "commit", U: T(1)},
+			{Kind: "newversion", U: T(1), Assign: L("ABCDEF0123456789ABCDEF0123456789")},
+			{Kind: "branch", U: T(1), Branch: L("x"), Assign: L("ABCDEF0123456789ABCDEF0123456789")},
+			{Kind: "newrepo", Root: sp(L("ABCDEF0123456789ABCDEF0123456789"))},
+			{Kind: "newversion", U: T(1), Assign: L("abcdef0123456789abcdef0123456789")},
+			{Kind: "branch", U: T(1), Branch: L("y"), Assign: L("AbCdEf0123456789aBcDeF0123456789")},
+			{Kind: "newrepo", Root: sp(L("AbCdEf0123456789aBcDeF0123456789"))},
+			{Kind: "newrepo", Root: sp(L("FFFFFFFFFFFFFFFFFFFFFFFFFFFFFFFF"))},
+			{Kind: "newrepo", Root: sp(L("ffffffffffffffffffffffffffffffff"))},
+			{Kind: "commit", U: L("FFFFFFFFFFFFFFFFFFFFFFFFFFFFFFFF")},
+			{Kind: "branch", U: L("FFFFFFFFFFFFFFFFFFFFFFFFFFFFFFFF"), Branch: L("z"), Assign: L("ffffffffffffffffffffffffffffffff")},
+			{Kind: "branch", U: L("FFFFFFFFFFFFFFFFFFFFFFFFFFFFFFFF"), Branch: L("w"), Assign: L("EEEEEEEEEEEEEEEEEEEEEEEEEEEEEEEE")},
+			{Kind: "newrepo", Root: sp(L("EEEEEEEEEEEEEEEEEEEEEEEEEEEEEEEE"))}},
 		// resolve refused after it created deletion nodes
 		with(Req{Kind: "newdata", U: T(3), Type: "keyvalue", Name: "d1"},
 			Req{Kind: "newversion", U: T(2), Assign: L("")},
@@ -1588,17 +1758,22 @@ func main() {
 		maxSeq = o.N
 	}
 	rng := lib.NewRand(o.Seed)
-	hostile, reused, tildes := 0, 0, 0
+	hostile := 0
+	genStats := map[string]int{}
 	for i := 0; i < maxSeq && bytes < budget; i++ {
 		g := &gen{rng: rng, n: 14 + rng.Intn(22), hostile: 0.3, passOf: map[string]string{}, stats: map[string]int{}}
 		so := runSeq(rng, func(w *world, sn *Snap, i int) (Req, bool) { return g.next(w, sn, i) })
 		add("random", so)
 		hostile += g.stats["hostile"]
-		reused += g.stats["reused_deleted_uuid"]
-		tildes += g.stats["master_tilde_after_merge"]
+		for k, v := range g.stats {
+			if k != "hostile" {
+				genStats[k] += v
+			}
+		}
 	}
-	run.Dist["reused_deleted_uuid"] = reused
-	run.Dist["master_tilde_after_merge"] = tildes
+	for k, v := range genStats {
+		run.Dist["gen:"+k] = v
+	}
 	if o.Thorough() || os.Getenv("C07_ENUM") != "" {
 		n := enumerate(run, total)
 		run.Extra["exhaustive"] = true
